@@ -217,8 +217,14 @@ def real_part(tier, pid, focus, verdict):
         nc = nested_cheat_scenario(root, bindir)
         results.append(nc)
         n_cheat += 1 if nc['cheated'] else 0
+    n_coinc = 0
     if focus == 'sched':
         results.append(lockwait_batch_scenario(root, bindir))
+        with ThreadPoolExecutor(4) as ex:
+            tts = list(ex.map(lambda k: token_timer_scenario(root, bindir, k), range(4 if tier == 'quick' else 12)))
+        for tt in tts:
+            n_coinc += tt['coincidences']
+            results.append(tt)
     val = validate_runs(results, root)
     # how often did several events become ready in one wake-up of a redo process (what the delayed select gate is for)
     sel = {'select_wakeups': 0, 'wakeups_with_2_or_more_ready': 0, 'wakeups_with_token_and_child_exit': 0,
@@ -282,7 +288,7 @@ def real_part(tier, pid, focus, verdict):
     ok_dirs = [r['dir'] for r in results if not r['problems'] and not any(v[0] is r for v in val['violations'])]
     for dd in ok_dirs:
         shutil.rmtree(dd, ignore_errors=True)
-    return {**locks_cov, **sel, 'cheat_scenarios_that_cheated': n_cheat, 'real_builds': len(results), 'real_commands': n_cmds, 'trace_events': val['events'],
+    return {**locks_cov, **sel, 'cheat_scenarios_that_cheated': n_cheat, 'token_and_timeout_coincidences_forced': n_coinc, 'real_builds': len(results), 'real_commands': n_cmds, 'trace_events': val['events'],
             'trace_segments': val['segments'], 'traces_validated_against_impl': val['accepted'],
             'trace_invariants': TRACE_INV, 'sample_real': sample,
             'configs': {'inherited': sum(1 for s in scs if s['inherit']),
@@ -446,6 +452,119 @@ def lockwait_batch_scenario(root, bindir):
     with open(os.path.join(d, 'scenario.json'), 'w') as f:
         json.dump({'scenario': res['sc'], 'files': files, 'commands': [r, rb], 'problems': probs,
                    'queued': res['queued'], 'waited': res['waited']}, f, indent=1)
+    return res
+
+
+def token_timer_scenario(root, bindir, k=0):
+    """a token arriving and the token-wait timeout expiring between two wake-ups of an idle process (RedoJobs: TimerFire and a
+    readable token pipe before one Select of a process in the `sel` state of ensure_token_or_cheat).  Invocation B builds x
+    (2 s).  Invocation A, `redo x` under the harness as parent jobserver with no spare token, finds x locked, gives up its
+    only token for the blocking lock wait; the harness (make) takes that token.  When A has the lock and waits for a token
+    again (select gate: want, no jobs, no token) the harness holds A's select() until the timeout of that wait is over,
+    returns the token meanwhile, and lets A go on: A's next poll finds both the token and the expired timer."""
+    import subprocess
+    import threading
+    d = os.path.join(root, 'token_timer_%d' % k)
+    shutil.rmtree(d, ignore_errors=True)
+    p = os.path.join(d, 'p')
+    os.makedirs(p)
+    files = {'x.do': 'sleep 1.5\necho x\n'}
+    for n, t in files.items():
+        with open(os.path.join(p, n), 'w') as f:
+            f.write(t)
+    trace = os.path.join(d, 'trace.ndjson')
+    open(trace, 'w').close()
+    envb = jobdrive.base_env(bindir, trace, {'REDO_LOG': '0'})
+    pb = subprocess.Popen(['redo', 'x'], cwd=p, env=envb, stdin=subprocess.DEVNULL, stdout=subprocess.DEVNULL,
+                          stderr=subprocess.PIPE, start_new_session=True)
+    time.sleep(0.3)
+    world = jobdrive.World(0, trace, random.Random(k), active=False)
+    os.set_blocking(world.r, False)
+    state = {'held': 0, 'matching': 0, 'coincidences': 0, 'stop': False}
+    lock = threading.Lock()
+
+    def taker():       # make takes every token that appears in the pipe and keeps it
+        while not state['stop'] and not state.get('returned'):
+            try:
+                b = os.read(world.r, 1)
+            except BlockingIOError:
+                b = b''
+            if b:
+                with lock:
+                    state['held'] += 1
+                world.emit('WorldTake', n=1)
+            else:
+                time.sleep(0.002)
+
+    def give_back():
+        state['returned'] = True        # from now on make leaves the tokens alone
+        time.sleep(0.01)
+        with lock:
+            n = state['held']
+            state['held'] = 0
+        for _ in range(n):
+            world.emit('WorldPut', n=1)
+            os.write(world.w, b't')
+
+    def delay_fn(fields):
+        if fields.get('want') and fields.get('jobs', 0) == 0 and fields.get('my', 1) == 0 and state['held'] > 0:
+            state['matching'] += 1
+            if state['matching'] == 3 + k:        # the timeouts so far: 10, 20, 40 ms ...; this one is over after 0.5 s
+                state['coincidences'] += 1
+                threading.Timer(0.5, give_back).start()
+                return 0.6
+        return 0.0
+    gate = FixedDelayer(os.path.join(d, 'gate'), 0.0, lambda f: False)
+    gate.delay_fn = delay_fn
+    th = threading.Thread(target=taker, daemon=True)
+    try:
+        extra = dict(world.env(), **gate.env())
+        extra['REDO_LOG'] = '0'
+        pa = subprocess.Popen(['redo', 'x'], cwd=p, env=jobdrive.base_env(bindir, trace, extra), stdin=subprocess.DEVNULL,
+                              stdout=subprocess.PIPE, stderr=subprocess.PIPE, start_new_session=True, pass_fds=world.fds())
+        world.dom = pa.pid
+        th.start()
+        to = False
+        try:
+            so, se = pa.communicate(timeout=25)
+        except subprocess.TimeoutExpired:
+            to = True
+            snap = jobdrive.process_snapshot(pa.pid)
+            try:
+                os.killpg(pa.pid, 9)
+            except ProcessLookupError:
+                pass
+            so, se = pa.communicate()
+            se += ('\n[harness] did not terminate; snapshot:\n' + snap).encode()
+        r = {'rc': pa.returncode, 'stdout': so.decode('utf-8', 'replace')[-500:], 'stderr': se.decode('utf-8', 'replace')[-3000:],
+             'timed_out': to, 'pid': pa.pid, 'argv': ['redo', 'x']}
+    finally:
+        state['stop'] = True
+        if th.is_alive():
+            th.join()
+        gate.close()
+    give_back()
+    toks, cheats = world.finish()
+    r['world'] = {'tokens_left': toks, 'cheat_bytes_left': cheats, 'tokens_given': 0}
+    try:
+        pb.wait(timeout=30)
+        rb = {'argv': ['redo', 'x'], 'rc': pb.returncode, 'stderr': pb.stderr.read().decode('utf-8', 'replace')[-1500:],
+              'timed_out': False, 'stdout': ''}
+    except subprocess.TimeoutExpired:
+        try:
+            os.killpg(pb.pid, 9)
+        except ProcessLookupError:
+            pass
+        rb = {'argv': ['redo', 'x'], 'rc': -9, 'stderr': 'did not terminate', 'timed_out': True, 'stdout': ''}
+    probs = ['redo x (under the harness jobserver): ' + x for x in jobdrive.classify(r, True)] + \
+            ['redo x (builder): ' + x for x in jobdrive.classify(rb, True)]
+    if toks - cheats != 0:
+        probs.append('inherited jobserver: gave 0 tokens, %d-%d left' % (toks, cheats))
+    res = {'sc': {'id': 'token_timer_%d' % k, 'j': 1, 'inherit': True}, 'dir': d, 'trace': trace, 'problems': probs, 'cmds': [r, rb],
+           'pj': files, 'coincidences': state['coincidences']}
+    with open(os.path.join(d, 'scenario.json'), 'w') as f:
+        json.dump({'scenario': res['sc'], 'files': files, 'commands': [r, rb], 'problems': probs,
+                   'coincidences': state['coincidences']}, f, indent=1)
     return res
 
 
